@@ -1318,6 +1318,9 @@ class Prop(Check):
             py_nodes = [i[1] for i in g.node_stmts]
             if lean_nodes != py_nodes:
                 return f"node statements: python {py_nodes}, lean {lean_nodes}"
+            if k == "mm" and out.get("nodup_domain") is True and len(set(py_nodes)) != len(py_nodes):
+                # C29_metamodel_nodup_checked: no attribute refers to a non-match class outside the walk
+                return f"a class has two node statements although no attribute refers to OBJECT: {py_nodes}"
         return None
 
     # --------------------------------------------------------------- oracle
@@ -1626,6 +1629,8 @@ Prop.THEOREMS = [
     "Dot.C29_metamodel_node_labels_unique",
     "Dot.C29_metamodel_nodes_nodup_false",
     "Dot.C29_metamodel_nodes_nodup_partial",
+    "Dot.C29_metamodel_edges_have_nodes",
+    "Dot.C29_metamodel_nodup_checked",
     "Dot.C29_metamodel_dot_export_checked",
     "Dot.C29_plantuml_export_checked",
 ]
